@@ -561,33 +561,35 @@ class ExcelInPython:
         if not args:
             return '$' + get_col() + '$' + str(row)
 
+        # the optional arguments arrive as values (a number 1-4 or a blank, a logical, the text of the sheet name)
         ref_type, *args = args
+        ref_type = 1 if ref_type is None or ref_type == 0 and not isinstance(ref_type, bool) else ref_type
         col_value = ''
         match ref_type:
-            case '1':
+            case 1:
                 col_value = '$' + get_col() + '$' + str(row)
-            case '2':
+            case 2:
                 col_value = get_col() + '$' + str(row)
-            case '3':
+            case 3:
                 col_value = '$' + get_col() + str(row)
-            case '4':
+            case 4:
                 col_value = get_col() + str(row)
 
         if args:
             a1_type, *args = args
-            if a1_type == 'False':
+            if a1_type is False or (not isinstance(a1_type, (bool, str)) and a1_type == 0 and a1_type is not None):
                 col_value = 'R' + str(row) + 'C' + str(col)
                 match ref_type:
-                    case '2':
+                    case 2:
                         col_value = 'R' + str(row) + 'C' + '[' + str(col) + ']'
-                    case '3':
+                    case 3:
                         col_value = 'R' + '[' + str(row) + ']' + 'C' + str(col)
-                    case '4':
+                    case 4:
                         col_value = 'R' + '[' + str(row) + ']' + 'C' + '[' + str(col) + ']'
 
         if args:
             sheet_name, *args = args
-            col_value = sheet_name + '!' + col_value
+            col_value = "'" + str(sheet_name) + "'" + '!' + col_value
 
         return col_value
     
